@@ -3,6 +3,6 @@
 P=$1; off=${2:-3}; p=$(echo $P | tr A-Z a-z)
 for k in 1 2 3; do
   sid=$((k+off))
-  /verif/tools/seed_verify.sh $P $k /tmp/m2-$p/MUTANTS /tmp/m2-$p $sid 2>&1 | grep -E "RESULT" | cut -c1-170
+  /verif/tools/seed_verify.sh $P $k /tmp/${WAVE:-m2}-$p/MUTANTS /tmp/${WAVE:-m2}-$p $sid 2>&1 | grep -E "RESULT" | cut -c1-170
   [ -d /verif/seeded/$P-$sid ] && timeout 2400 /verif/tools/seed_run.sh $P-$sid $P 2>&1 | cut -c1-250
 done
